@@ -13,6 +13,9 @@ DIRECT = {
     'C14': {'inv-false-on-observed', 'layout-mismatch', 'meta-mismatch', 'api-error', 'harness-crash', 'table-status'},
 }
 DIRECT['C19'] = {'read-vs-spec', 'read-vs-spec-after-repair', 'scan-vs-spec', 'iter-vs-spec', 'api-error', 'harness-crash', 'table-status', 'dir-vs-live', 'layout-mismatch'}
+DIRECT['C20'] = {'backup-contents', 'backup-not-independent', 'copy-contents', 'wrongcmp-not-refused', 'wrongcmp-modified-files',
+                 'lock-not-exclusive', 'lock-not-released', 'lock-dropped-by-failed-open',
+                 'read-vs-spec', 'scan-vs-spec', 'api-error', 'harness-crash'}     # the source must stay unchanged and usable
 INDIRECT = {
     'C01': {'replica-divergence', 'step-not-guarded', 'step-output-differs', 'inv-false-on-observed'},
     'C06': {'replica-divergence', 'step-not-guarded', 'step-output-differs', 'inv-false-on-observed'},
@@ -20,6 +23,7 @@ INDIRECT = {
     'C13': {'step-not-guarded'},
     'C14': {'step-not-guarded', 'step-output-differs', 'replica-divergence'},
     'C19': {'step-not-guarded', 'step-output-differs'},
+    'C20': {'step-not-guarded'},
 }
 
 def snapshot_only(p):
@@ -85,6 +89,7 @@ def run_k2(rep, prop, tier, seed, profile, nhist, nops, fixed=None, extra_histor
                 totals['other_property_problems'] = totals.get('other_property_problems', 0) + 1
                 continue
             sig = 'C19:get-after-repair-stale-level0-order' if kind == 'read-vs-spec-after-repair' else None
+            if kind == 'lock-dropped-by-failed-open': sig = 'C20:fcntl-lock-dropped-by-failed-second-open'
             if reported < 3 or sig:
                 reported += 1
                 rep.violation({'kind': 'K2-' + kind, 'problem': p, 'options': r['cfg'],
